@@ -29,7 +29,10 @@ pub fn gen_overflow_dag(r: &mut Rng) -> Dag {
         let a = pool[r.below(pool.len())];
         let b = pool[r.below(pool.len())];
         let big = *r.pick(&[1e30f32, 3e38, 1e20, -1e30, 1e-30, 0.0, 2.0]);
-        let node = match r.below(16) {
+        // (constants that are themselves infinite: a bound that overflowed to the OTHER infinity gives inf - inf in one bound only)
+        let inf = *r.pick(&[f32::INFINITY, f32::NEG_INFINITY]);
+        let node = match r.below(19) {
+            16 => ctx.add(a, inf), 17 => ctx.sub(inf, a), 18 => ctx.mul(a, inf),
             0 => ctx.square(a), 1 => ctx.mul(a, b), 2 => ctx.mul(a, big), 3 => ctx.exp(a),
             4 => ctx.div(a, b), 5 => ctx.recip(a), 6 => ctx.sub(a, b), 7 => ctx.add(a, b),
             8 => ctx.ln(a), 9 => ctx.sqrt(a), 10 => ctx.tan(a), 11 => ctx.modulo(a, b),
@@ -172,6 +175,19 @@ fn malformed<F: Function<Trace = VmTrace> + MathFunction>(r: &mut Rng, backend: 
             let mut gl = vec![vec![fidget_core::types::Grad::from(0.5); n]; 3];
             gl.push(vec![fidget_core::types::Grad::from(0.5); n + 1]);
             if ge.eval(&gt, &gl).is_ok() { bad.push(format!("a surplus gradient slice of a different length accepted (n={n})")); }
+        }
+        // the shape wrapper: X, Y, Z slices of different lengths are an error value, whichever of the three is the odd one
+        {
+            let sh = Shape::<F>::new(&ctx, s).unwrap();
+            let (t, gt) = (sh.ez_float_slice_tape(), sh.ez_grad_slice_tape());
+            let mut e = Shape::<F>::new_float_slice_eval(); let mut ge = Shape::<F>::new_grad_slice_eval();
+            for odd in 0..3 { for delta in [-1i32, 1] {
+                let len = |k: usize| if k == odd { (4 + delta) as usize } else { 4 };
+                let (xs, ys, zs) = (vec![0.5f32; len(0)], vec![0.5f32; len(1)], vec![0.5f32; len(2)]);
+                if e.eval(&t, &xs, &ys, &zs).is_ok() { bad.push(format!("shape float-slice evaluation accepts slices of lengths {} {} {}", xs.len(), ys.len(), zs.len())); }
+                let g = |n: usize| vec![Grad::from(0.5); n];
+                if ge.eval(&gt, &g(len(0)), &g(len(1)), &g(len(2))).is_ok() { bad.push(format!("shape grad-slice evaluation accepts slices of lengths {} {} {}", len(0), len(1), len(2))); }
+            } }
         }
         // extra variables are fine
         if pe.eval(&t, &[1.0, 2.0, 3.0, 4.0, 5.0]).is_err() { bad.push("extra variables rejected".to_string()); }
